@@ -47,6 +47,48 @@ def differs_only_in_module_order(t0, t1):
     return per_module(b0) == per_module(b1) and all(m != '?' for m, _ in b0)
 
 
+LONG_NAME = 16      # names that do not fit the heap's inline representation (15 bytes) are ordered by interning order
+
+
+def canon_long_names(block):
+    """A block with the two enumeration-order dependent spellings made canonical, but only where names longer than 15 bytes take
+    part: the `- `name`` lists are sorted, and a counterexample that mentions such a name is replaced by a placeholder."""
+    import re
+    lines = block.split('\n')
+    out, i = [], 0
+    while i < len(lines):
+        if re.match(r'^- `\w+`$', lines[i]):
+            j = i
+            while j < len(lines) and re.match(r'^- `\w+`$', lines[j]):
+                j += 1
+            grp = lines[i:j]
+            out.extend(sorted(grp) if any(len(g) - 4 >= LONG_NAME for g in grp) else grp)
+            i = j
+            continue
+        m = re.match(r'^(Here is an example of a non-matching value: `)(.*)(`\.)$', lines[i])
+        if m and any(len(w) >= LONG_NAME for w in re.findall(r'\w+', m.group(2))):
+            out.append(m.group(1) + '<counterexample with a long name>' + m.group(3))
+        else:
+            out.append(lines[i])
+        i += 1
+    return '\n'.join(out)
+
+
+def differs_only_in_enumeration_dependent_spellings(t0, t1):
+    """as differs_only_in_module_order, and within a block only the order of a list that contains a name longer than 15 bytes or
+    the counterexample chosen among variants with such names differs"""
+    h0, b0, f0 = error_blocks(t0)
+    h1, b1, f1 = error_blocks(t1)
+    if h0 != h1 or f0 != f1 or len(b0) != len(b1) or any(m == '?' for m, _ in b0):
+        return False
+    def per_module(bs):
+        d = {}
+        for m, b in bs:
+            d.setdefault(m, []).append(canon_long_names(b))
+        return d
+    return per_module(b0) == per_module(b1)
+
+
 def compile_once(binp, job, threads, outdir, order=None):
     """One fresh process (fresh hash seeds) with a given worker-thread count and module enumeration order."""
     j = dict(job, out_dir=outdir, want_text=True)
@@ -64,6 +106,37 @@ def ill_typed_sources(rng):
     """Multi-module sources with diagnostics in several modules (order of module enumeration matters for merging)."""
     h = H.gen_history(rng, nmods=rng.range(3, 6), nsteps=2)
     return {'sources': h['init'], 'entry': sorted(h['init'])[0] if h['init'] else 'M0', 'features': ['ill-typed']}
+
+
+def listing_sources(rng):
+    """Ill-typed two/three-module sources whose diagnostics LIST or CHOOSE among names: several missing members of a class,
+    several fields a pattern does not mention, non-exhaustive matches with more than one deficient constructor; names shorter
+    and longer than the heap's inline limit (15 bytes), the long ones also mentioned by another module in another order."""
+    def name(i, long):
+        base = ['alpha', 'beta', 'gamma', 'delta', 'omega', 'kappa'][i % 6]
+        return (base + 'WithAVeryLongSuffix%d' % i) if long else base + str(i)
+    nm = rng.range(3, 5)
+    longs = [rng.range(0, 2) == 0 for _ in range(6)]
+    ms = [name(i, longs[i]) for i in range(nm)]
+    fs = [name(i, longs[(i + 1) % 6]) + 'F' for i in range(nm)]
+    vs = [n[0].upper() + n[1:] + 'V' for n in (name(i, longs[(i + 2) % 6]) for i in range(3))]
+    flds = [name(i, longs[(i + 3) % 6]) + 'Fld' for i in range(4)]
+    keep = rng.range(0, nm - 2)
+    a = 'interface Shape {\n' + ''.join('  method %s(): int\n' % m for m in ms) + ''.join('  function %s(): int\n' % f for f in fs) + '}\n'
+    a += 'class Impl(val v: int) : Shape {\n' + ''.join('  method %s(): int = 1\n' % m for m in ms[:keep]) + '}\n'
+    a += 'class Opt(No, Yes(int))\n'
+    a += 'class Big(%s)\n' % ', '.join('%s(Opt)' % v for v in vs)
+    a += 'class Rec(%s)\n' % ', '.join('val %s: int' % f for f in flds)
+    pats = [rng.range(0, 2) for _ in vs]
+    a += 'class Main {\n'
+    a += '  function deficient(b: Big): int = match b { %s }\n' % ' '.join('%s(%s) -> 1,' % (v, 'Yes(_)' if k else 'No') for v, k in zip(vs, pats))
+    a += '  function missing(b: Big): int = match b { %s(_) -> 1, }\n' % vs[rng.range(0, 2)]
+    a += '  function fields(r: Rec): int = { let { %s } = r; %s }\n' % (flds[rng.range(0, 3)], '0')
+    a += '  function main(): unit = {}\n}\n'
+    # the other module mentions the same names first in another order (interning order differs with the enumeration order)
+    order = rng.shuffle(ms + fs + [v[0].lower() + v[1:] for v in vs] + flds)
+    b = 'class Other {\n' + ''.join('  function %s(): int = 0\n' % n for n in order) + '}\n'
+    return {'sources': {'A': a, 'B': b}, 'entry': 'A', 'features': ['listing']}
 
 # ----------------------------------------------------------------------------- Layer B: model <-> code
 def g_tree(t):
@@ -236,6 +309,8 @@ def run(tier, seed, replay=None):
             r = rng.fork()
             if i % 6 == 5:
                 progs.append(multi_entry_program(r))
+            elif i % 6 == 2:
+                progs.append(listing_sources(r))
             elif i % 3 == 0:
                 progs.append(ill_typed_sources(r))
             elif i % 3 == 1:
@@ -280,8 +355,13 @@ def run(tier, seed, replay=None):
             if str(v['compile']) != str(ref['compile']):
                 bad = ('accept/reject verdict differs', key, ref['compile'], v['compile'])
                 break
+            if v.get('compile_text', '') != ref.get('compile_text', '') and v['text'] == ref['text']:
+                # the driver's own rendering (compile_sources parses and checks by itself)
+                if not (orders.get(key) and differs_only_in_enumeration_dependent_spellings(ref.get('compile_text', ''), v.get('compile_text', ''))):
+                    bad = ('diagnostics rendered by compile_sources differ', key, ref.get('compile_text', '')[:400], v.get('compile_text', '')[:400])
+                    break
             if v['text'] != ref['text']:
-                if orders.get(key) and differs_only_in_module_order(ref['text'], v['text']):
+                if orders.get(key) and differs_only_in_enumeration_dependent_spellings(ref['text'], v['text']):
                     known_order = known_order or (key, orders[key])
                     continue
                 bad = ('rendered diagnostics differ', key, ref['text'][:400], v['text'][:400])
